@@ -234,7 +234,24 @@ fn view_cases(rep: &mut Report, rng: &mut Rng, n: u64) {
         let t = ts.store.ensure_default().unwrap();
         let mut msgs = Vec::new();
         let k = rng.range(3, 30) as usize;
-        random_history(&ts.store, &t, rng, k, &mut msgs);
+        // one case in three loses the rebuildable caches while the store is running, between two
+        // appends (the next seq is in memory): the views must still be the log's frames
+        let lose = rng.chance(1, 3);
+        if lose {
+            let k1 = rng.range(1, k as u64 - 1) as usize;
+            random_history(&ts.store, &t, rng, k1, &mut msgs);
+            if rng.chance(1, 2) {
+                let _ = std::fs::remove_dir_all(ts.data_dir.join("continuity_streams"));
+            } else {
+                let _ = std::fs::remove_file(ts.data_dir.join("continuity_streams").join(format!("{t}.jsonl")));
+            }
+            rep.count("view_cases_with_caches_lost_mid_history");
+            // at least one append right after the loss, before anything reads
+            let _ = ts.store.append_message(&t, "u".into(), "cli".into(), "first append after the loss".into());
+            random_history(&ts.store, &t, rng, k - k1, &mut msgs);
+        } else {
+            random_history(&ts.store, &t, rng, k, &mut msgs);
+        }
         if rng.chance(1, 2) {
             let _ = ts.store.compaction_auto_v1(&t, ripd::CompactionAutoV1Request { stride_messages: Some(2), max_new_checkpoints: Some(2), dry_run: Some(false), actor_id: "u".into(), origin: "cli".into() });
         }
@@ -249,7 +266,7 @@ fn view_cases(rep: &mut Report, rng: &mut Rng, n: u64) {
         let sidecar: Vec<Value> = read_frames(&ts.data_dir.join("continuity_streams").join(format!("{t}.jsonl")));
         rep.evaluations += 1;
         rep.traces_validated += 1;
-        let case = json!({"case": case_no, "frames": from_log.len()});
+        let case = json!({"case": case_no, "frames": from_log.len(), "caches_lost_mid_history": lose});
         if live != from_log {
             rep.oracle_failure("C03|live-vs-log", &format!("live subscriber saw {} frames, the log holds {}", live.len(), from_log.len()), case.clone());
         }
